@@ -7,7 +7,7 @@ CONSTANTS
   MaxDepth = 2
   MaxChain = 3
   SysIdx = {1,3,4,5,6,7}
-  AddedIdx = {1,4,9}
+  AddedIdx = {1,4,7}
   EmitMod = 1
   EmitRem = 0
   FixEnvPath = FALSE
